@@ -87,7 +87,7 @@ class Outcome:
 
 
 class Explorer:
-    def __init__(self, func, atom_of=None, tracked=None, max_states=40000, follow_implicit_exc=False, frozen=None, track_locals=True):
+    def __init__(self, func, atom_of=None, tracked=None, max_states=40000, follow_implicit_exc=False, frozen=None, track_locals=True, inline_depth=2):
         self.func = func
         self.repo = func.module._repo
         self.cfg = func.cfg
@@ -99,6 +99,7 @@ class Explorer:
         self.max_states = max_states
         self.follow_implicit_exc = follow_implicit_exc
         self.unknown_tests = []       # tests that evaluated to UNKNOWN (for diagnostics)
+        self.inline_depth = inline_depth
 
     # ---------------------------------------------------------------- eval
     def key_of(self, e):
@@ -287,6 +288,9 @@ class Explorer:
                 return getattr(base, e.attr)
             return UNKNOWN
         if isinstance(e, ast.Call):
+            v = self._inline(e, env)
+            if v is not UNKNOWN:
+                return v
             if isinstance(e.func, ast.Attribute) and not e.keywords:
                 base = self.ev(e.func.value, env)
                 if isinstance(base, SpecObj) and callable(getattr(base, e.func.attr, None)):
@@ -332,6 +336,55 @@ class Explorer:
                 return UNKNOWN
             return UNKNOWN
         return UNKNOWN
+
+    def _inline(self, call, env):
+        """value of a call to a repo function (same class via self., or module level) when the callee's result is
+        determined by the valuation: the guard may have been extracted into a helper (DESIGN 3.1 A4, depth <= 2).
+        Only the return value is used; callee side effects on tracked state are not modelled."""
+        if self.inline_depth <= 0:
+            return UNKNOWN
+        q = self.repo.call_target(self.func.module, self.func, call)
+        if not q or not q.startswith("gunicorn.") or not self.repo.has_func(q):
+            return UNKNOWN
+        callee = self.repo.func(q)
+        if callee is self.func or any(isinstance(n, (ast.Yield, ast.YieldFrom)) for n in ast.walk(callee.node)):
+            return UNKNOWN
+        params = list(callee.params)
+        is_method = callee.cls is not None and params and params[0] == "self"
+        names = params[1:] if is_method else params
+        if len(call.args) > len(names) or any(k.arg is None for k in call.keywords):
+            return UNKNOWN
+        env2 = {}
+        # the callee sees the same `self.*` / module valuation
+        for k, v in env.items():
+            if k.startswith("self.") or "." in k or k.isupper():
+                env2[k] = v
+        for nm, a in zip(names, call.args):
+            env2[nm] = self.ev(a, env)
+        for kw in call.keywords:
+            env2[kw.arg] = self.ev(kw.value, env)
+        sub = Explorer(callee, atom_of=self.atom_of, max_states=4000, inline_depth=self.inline_depth - 1)
+        try:
+            outs = sub.run(callee.cfg.entry, env2)
+        except AnalysisError:
+            return UNKNOWN
+        vals = []
+        for o in outs:
+            if o.kind != "return":
+                return UNKNOWN
+            d = o.detail
+            if isinstance(d, str) and d.startswith("expr:"):
+                return UNKNOWN
+            if d == "fall-off":
+                d = None
+            vals.append(d)
+        if not vals:
+            return UNKNOWN
+        first = vals[0]
+        for v in vals[1:]:
+            if type(v) is not type(first) or v != first:
+                return UNKNOWN
+        return first
 
     # ------------------------------------------------------------- effects
     def apply(self, node, env):
